@@ -43,6 +43,7 @@ type c12Program struct {
 	Threads    [][]string `json:"threads"`
 	Yield      int        `json:"yieldEvery"`
 	Switches   int        `json:"switches"`
+	ViaWrite   bool       `json:"switchViaWriteSpec"` // the switcher publishes the two states with Cache.WriteSpec instead of write+rename
 }
 
 var c12Ops = []string{"ListDevices", "GetDevice", "ListVendors", "ListClasses", "GetVendorSpecs", "GetSpecErrors", "GetErrors", "GetSpecDirectories",
@@ -51,7 +52,8 @@ var c12Ops = []string{"ListDevices", "GetDevice", "ListVendors", "ListClasses", 
 
 func genC12(t *rapid.T) c12Program {
 	p := c12Program{Auto: rapid.Bool().Draw(t, "auto"), GoMaxProcs: rapid.SampledFrom([]int{2, 4, 16}).Draw(t, "gomaxprocs"),
-		Yield: rapid.SampledFrom([]int{0, 1, 3, 10}).Draw(t, "yieldEvery"), Switches: rapid.IntRange(20, 120).Draw(t, "switches")}
+		Yield: rapid.SampledFrom([]int{0, 1, 3, 10}).Draw(t, "yieldEvery"), Switches: rapid.IntRange(20, 120).Draw(t, "switches"),
+		ViaWrite: rapid.Bool().Draw(t, "switchViaWriteSpec")}
 	n := rapid.IntRange(3, 8).Draw(t, "threads")
 	for i := 0; i < n; i++ {
 		// each thread has a small repertoire repeated many times: pairs of operations overlap often
@@ -100,10 +102,22 @@ func (env *c12Env) run(p c12Program) (msg string, mutators int) {
 	bg.Add(1)
 	go func() {
 		defer bg.Done()
+		var specA, specB specs.Spec
+		_ = json.Unmarshal(docA, &specA)
+		_ = json.Unmarshal(docB, &specB)
+		writer, _ := cdi.NewCache(cdi.WithSpecDirs(dir), cdi.WithAutoRefresh(false))
 		for i := 0; i < p.Switches && !stop.Load(); i++ {
-			doc := docB
+			doc, sp := docB, &specB
 			if i%2 == 1 {
-				doc = docA
+				doc, sp = docA, &specA
+			}
+			if p.ViaWrite {
+				// publication by the library itself must be just as atomic for concurrent queries
+				if err := writer.WriteSpec(sp, "state.json"); err != nil {
+					failf("the switcher's WriteSpec failed: %v", err)
+				}
+				time.Sleep(time.Duration(200+i%7*100) * time.Microsecond)
+				continue
 			}
 			tmp := filepath.Join(stage, "next.json")
 			_ = os.WriteFile(tmp, doc, 0o644)
@@ -329,6 +343,9 @@ func TestC12Rapid(t *testing.T) {
 			labels = append(labels, "manual-with-refresher")
 		}
 		labels = append(labels, fmt.Sprintf("gomaxprocs-%d", p.GoMaxProcs))
+		if p.ViaWrite {
+			labels = append(labels, "switch-via-WriteSpec")
+		}
 		rec.Case(mutators > 0, canonJSON(p), func() any { return p }, labels...)
 	})
 	_ = os.Remove(cur)
